@@ -28,7 +28,7 @@ def run(chk: core.Check) -> None:
     chk.rule = (
         "histories of 1..8 operations over {body / meta / styles edit, add_file by path or file-like (repeated content), del_part (any optional part, pictures, "
         "manifest.rdf), image frame, merge_styles_from, lazy reads, clone (continue on the clone), save + reopen (continue on the reopened document)} from the "
-        "four templates and from samples opened by path / buffer / folder, with saves in the middle after which the same object goes on; every save is inspected. non-trivial = the history adds or deletes a part; distinct "
+        "four templates and from samples opened by path / buffer / folder, with saves in the middle after which the same object goes on; the last save is a plain zip, a pretty-printed zip, or a folder (pretty or not) opened again and saved as a zip; every save is inspected. non-trivial = the history adds or deletes a part; distinct "
         "by (origin, history). picture-merge family (zipfile/lxml oracle only): histories of 2..9 operations over {merge_styles_from a source whose styles "
         "reference packaged pictures (samples with master-page images / draw:fill-image, opened by path or buffer; documents of each type built with add_file + "
         "DrawFillImage / an image frame in a master page, live or saved + reopened; 1..2 sources per history, source object reused or reopened), del_part of a "
@@ -159,14 +159,33 @@ def one_history(chk, rng, s, tmp):
             chk.fail({**case, "op": list(op), "clause": "read"}, res)
             return
         chk.mirror.after_op(s, op)
+    # the last save of the history: plain zip (followed by the model), pretty-printed zip, or a folder that is opened again and
+    # saved as a zip (the layout of the XML parts is free there, the package rules are the same)
+    final = rng.choice(["plain", "plain", "pretty", "folder", "folder-plain"])
+    s.log.append(["final save", final])
     case = {"origin": s.name, "history": s.log}
     chk.case((s.name, repr(s.log)), nontrivial=nontriv, sample=case if nontriv else None)
+    chk.count("final save", final)
     try:
-        data = pkg.save_zip_bytes(s.doc)
+        if final == "plain":
+            data = pkg.save_zip_bytes(s.doc)
+        elif final == "pretty":
+            bio = io.BytesIO()
+            s.doc.save(bio, pretty=True)
+            data = bio.getvalue()
+        else:
+            import shutil
+
+            target = tmp / f"c04-final-{rng.randrange(10**9)}"
+            s.doc.save(target, packaging="folder", pretty=(final == "folder"))
+            folder = Path(str(target) + ".folder")
+            data = pkg.save_zip_bytes(Document(folder))
+            shutil.rmtree(folder, ignore_errors=True)
     except Exception as e:  # noqa: BLE001
         chk.fail({**case, "exception": repr(e), "clause": "save-raises"}, f"save raised {type(e).__name__}")
         return
-    chk.mirror.save(s, data, s.doc.container.default_manifest_rdf.encode("utf8"))
+    if final == "plain":
+        chk.mirror.save(s, data, s.doc.container.default_manifest_rdf.encode("utf8"))
     check_saved(chk, s, data, case)
 
 
